@@ -92,6 +92,26 @@ func init() {
 		for _, w := range L(op, "widths") {
 			outs = append(outs, m.Render(I(Op{"v": w}, "v")))
 		}
+		/* the same widths, each on a markup value that has never been rendered before: what the
+		   text at a width is when nothing happened earlier (skipped for the very deep documents) */
+		if !B(op, "nomodel") {
+			fresh := []any{}
+			for _, w := range L(op, "widths") {
+				var fm interface{ Render(int) string }
+				switch S(op, "media") {
+				case "html":
+					fm, _, _ = hypertext.NewMarkup(src)
+				case "markdown":
+					fm, _, _ = markdown.NewMarkup(src)
+				case "gemini":
+					fm, _, _ = gemtext.NewMarkup(src)
+				default:
+					fm, _, _ = plaintext.NewMarkup(src)
+				}
+				fresh = append(fresh, fm.Render(I(Op{"v": w}, "v")))
+			}
+			op["fresh"] = fresh
+		}
 		return map[string]any{"links": toAnyList(links), "out": outs}
 	}
 	groups["render"] = group{gen: genRender}
@@ -192,6 +212,10 @@ func (g *docGen) media() string {
 	case 1:
 		/* no alt: the link itself is shown */
 		g.labels = g.labels[:len(g.labels)-1]
+		if r.Intn(3) == 0 {
+			/* … and the link carries character references to control characters */
+			return "<" + tag + " src=\"" + t + "?" + pick(r, injections) + "x" + pick(r, injections) + "\">"
+		}
 		return "<" + tag + " src=\"" + t + "\">"
 	case 2:
 		/* no src: not a link at all */
@@ -362,13 +386,51 @@ func genRender(r *rand.Rand, n int, emit func(Op)) {
 		case 3:
 			media, src = "plain", g.plainDoc()
 		}
-		emit(Op{"op": "render", "media": media, "src": src, "widths": genWidthSeq(r), "labels": g.labels, "checknumbers": true})
+		widths := genWidthSeq(r)
+		if r.Intn(6) == 0 {
+			/* widths around the length of the source and of its longest line, then wider and
+			   narrower again: what a cache keyed on "it fitted last time" gets wrong */
+			L := len([]rune(src))
+			longest := 0
+			for _, l := range strings.Split(src, "\n") {
+				if n := len([]rune(l)); n > longest {
+					longest = n
+				}
+			}
+			base := pick(r, []int{L, L, longest, longest + 1, L - 1})
+			if base < 1 {
+				base = 1
+			}
+			if base > 240 {
+				base = 240
+			}
+			widths = []any{base, base + 1 + r.Intn(30), base - r.Intn(3), base + 40}
+			if r.Intn(2) == 0 {
+				widths = append([]any{80}, widths...)
+			}
+		}
+		emit(Op{"op": "render", "media": media, "src": src, "widths": widths, "labels": g.labels, "checknumbers": true})
 	}
 }
 
 /* deep nesting: panics, hangs and blow-up live here */
 func genRenderDeep(r *rand.Rand, n int, emit func(Op)) {
 	for i := 0; i < n; i++ {
+		if r.Intn(8) == 0 {
+			/* one preformatted ancestor around many width-consuming levels (lists, headings):
+			   every level past the available width must stay cheap */
+			k := 12 + r.Intn(36)
+			outer := pick(r, []string{"pre", "code", "pre><code"})
+			lvl := pick(r, []string{"ul><li", "ol><li", "ul><li"})
+			open := "<" + outer + ">" + strings.Repeat("<"+lvl+">", k)
+			closeL := "</li></ul>"
+			if strings.HasPrefix(lvl, "ol") {
+				closeL = "</li></ol>"
+			}
+			close := strings.Repeat(closeL, k) + "</code></pre>"
+			emit(Op{"op": "render", "media": "html", "src": open + pick(r, []string{"two words", "x", "a b c d e f g h"}) + close, "widths": []any{pick(r, []int{80, 80, 10, 40})}, "labels": []any{}, "nomodel": true})
+			continue
+		}
 		depth := 3 + r.Intn(28)
 		if r.Intn(3) == 0 {
 			depth = 3 + r.Intn(8)
